@@ -31,12 +31,14 @@ type c11Acc struct {
 }
 
 type c11Out struct {
-	Tried    int      `json:"tried"`
-	Accepted []c11Acc `json:"accepted"`
-	Unstable [][]int  `json:"unstable"` // strings whose second evaluation (after all others) differs from the first
-	Pitch    [][]int  `json:"pitch"`    // NoteToPitch(n) bytes, n = 0..127
-	Octave   []int    `json:"octave"`   // NoteToOctave(n)
-	Panics   []string `json:"panics"`
+	Tried      int      `json:"tried"`
+	Accepted   []c11Acc `json:"accepted"`
+	Unstable   [][]int  `json:"unstable"` // strings whose second evaluation (after all others) differs from the first
+	Pitch      [][]int  `json:"pitch"`    // NoteToPitch(n) bytes, n = 0..127
+	Octave     []int    `json:"octave"`   // NoteToOctave(n)
+	Panics     []string `json:"panics"`
+	OctaveCold []int    `json:"octave_cold"`
+	PitchCold  [][]int  `json:"pitch_cold"`
 	// Concurrent: answers that differ from the sequential ones when 16 goroutines convert different strings at the same time
 	Concurrent      []c11Conc `json:"concurrent"`
 	ConcurrentCalls int       `json:"concurrent_calls"`
@@ -60,6 +62,14 @@ func verifC11(t *testing.T) {
 	var in c11In
 	mustReadJSON(t, &in)
 	out := c11Out{Accepted: []c11Acc{}, Panics: []string{}, Unstable: [][]int{}}
+	// before ANYTHING else of the package has been called in this process: the octave of every number (then the pitch names); compared at
+	// the end with the answers after millions of other calls - the answer depends on the number only, not on what was called before
+	for n := 0; n < 128; n++ {
+		out.OctaveCold = append(out.OctaveCold, NoteToOctave(byte(n)))
+	}
+	for n := 0; n < 128; n++ {
+		out.PitchCold = append(out.PitchCold, bytesOf(NoteToPitch(byte(n))))
+	}
 	try := func(s string) {
 		defer func() {
 			if r := recover(); r != nil {
